@@ -8,6 +8,8 @@ import (
 	"go/types"
 	"math/big"
 	"strings"
+
+	"golang.org/x/tools/go/ssa"
 )
 
 type Env struct {
@@ -24,6 +26,7 @@ type Env struct {
 	results  []Term
 	resNames []string
 	oldAlloc string
+	inOld    bool
 }
 
 func (c *FnCtx) newEnv(fr *frame, st *State) *Env {
@@ -147,8 +150,22 @@ func (e *Env) lookupName(name string) (Term, bool) {
 	if t, ok := e.lets[name]; ok {
 		return t, true
 	}
-	if t, ok := e.names[name]; ok {
-		return t, true
+	// an address-taken Go variable lives in a cell: its current value is the cell's content
+	if e.fr != nil && e.fr.fn != nil && !e.inOld {
+		if a := allocNamed(e.fr.fn, name); a != nil {
+			if pv, ok := e.c.vals[a].(Term); ok {
+				el := derefT(a.Type())
+				if pv.Sort == "LOCAL" {
+					return Term{S: e.c.get(e.st, strings.TrimPrefix(pv.S, "LOCAL:")), Sort: e.c.sortOf(el), T: el}, true
+				}
+				return e.c.loadPtr(e.st, pv, el), true
+			}
+		}
+	}
+	if _, addr := e.names["&"+name]; !addr {
+		if t, ok := e.names[name]; ok {
+			return t, true
+		}
 	}
 	if p, ok := e.names["&"+name]; ok {
 		// escaping local: current content of its cell
@@ -601,6 +618,7 @@ func (e *Env) evalCall(n *Node, want string) Term {
 		}
 		ne := *e
 		ne.st = e.old
+		ne.inOld = true
 		if e.oldNames != nil {
 			ne.names = e.oldNames
 		}
@@ -634,6 +652,12 @@ func (e *Env) evalCall(n *Node, want string) Term {
 	case "off":
 		x := e.eval(args[0], "")
 		return Term{S: slOff(x.S), Sort: SInt}
+	case "store":
+		a := e.eval(args[0], "")
+		ks, vs := arraySorts(a.Sort)
+		k := e.eval(args[1], ks)
+		v := e.eval(args[2], vs)
+		return Term{S: fmt.Sprintf("(store %s %s %s)", a.S, k.S, v.S), Sort: a.Sort}
 	case "alloc":
 		return Term{S: e.st.alloc, Sort: SInt}
 	case "elems":
@@ -875,4 +899,30 @@ func (c *FnCtx) pointeeLocs(t types.Type, ref string) []ModLoc {
 	default:
 		return []ModLoc{{c.cellRegion(t), ref}}
 	}
+}
+
+var allocCache = map[*ssa.Function]map[string]*ssa.Alloc{}
+
+// allocNamed: the unique Alloc instruction of fn that backs the Go variable called name.
+func allocNamed(fn *ssa.Function, name string) *ssa.Alloc {
+	m, ok := allocCache[fn]
+	if !ok {
+		m = map[string]*ssa.Alloc{}
+		dup := map[string]bool{}
+		for _, b := range fn.Blocks {
+			for _, ins := range b.Instrs {
+				if a, ok := ins.(*ssa.Alloc); ok && a.Comment != "" {
+					if _, seen := m[a.Comment]; seen {
+						dup[a.Comment] = true
+					}
+					m[a.Comment] = a
+				}
+			}
+		}
+		for k := range dup {
+			delete(m, k)
+		}
+		allocCache[fn] = m
+	}
+	return m[name]
 }
